@@ -105,6 +105,7 @@ var c16Hists = []c16Hist{
 	{"h_dup_later_resource", nil, "v1"},
 	{"h_dup_same_resource", nil, "v1"},
 	{"h_two_kbs", nil, "v1"},
+	{"h_dup_identical", nil, "v1"},
 }
 
 func VerifC16History(storeLoad int) {
@@ -114,6 +115,10 @@ func VerifC16History(storeLoad int) {
 	f0 := newFact("F", 0)
 	verif.Reach("c16:history")
 	if storeLoad == 0 {
+		if strings.HasPrefix(h.tmpl, "h_dup") {
+			log := zzkb.StepLog(h.tmpl)
+			verif.Assert(L+"building-an-existing-name-returns-an-error", len(log) > 1 && log[1] == "build:true")
+		}
 		c16Check(L, lib, "T", h.gone, h.wantA, f0)
 		if h.tmpl == "h_two_kbs" {
 			// the second knowledge base of the library is not influenced by the first
